@@ -50,6 +50,9 @@ struct Machine
   {
     M g0 = M::Id();  // value of the empty spline
     std::vector<Piece> pcs;
+    /// a crop boundary coincided with a knot to within rounding: whether a sliver segment of length ~ulp exists is then
+    /// decided by rounding, so size() is not compared in this state and its descendants (values still are)
+    bool fuzzy = false;
     L tmax() const
     {
       L s = 0;
@@ -66,6 +69,7 @@ struct Machine
   {
     M val;
     L vel[D], acc[D];
+    L pieceT = 1;  // duration of the piece the evaluation belongs to (conditioning of time derivatives)
   };
 
   std::vector<std::shared_ptr<const Sp>> atoms;                  // fixed atoms, some with a non-identity start (initial states)
@@ -134,6 +138,7 @@ struct Machine
       if (t >= o - dl && (t <= o + p.T + dl || last)) {
         Ev e  = atom_eval(p.atom, p.s0 + std::clamp<L>(t - o, 0, p.T));
         e.val = ref::mul(p.P, e.val);
+        e.pieceT = p.T;
         out.push_back(e);
       }
       o += p.T;
@@ -182,12 +187,15 @@ struct Machine
     } else {
       const L ta = std::max<L>(o.ta, 0), tb = std::min<L>(o.tb, st.r.tmax());
       RefS n;
+      n.fuzzy = st.r.fuzzy;
       if (tb > ta) {
         const M Lf = o.loc ? ref::inv(value_right(st.r, ta)) : M::Id();
+        const L dl = 32 * std::numeric_limits<double>::epsilon() * std::max<L>(1, st.r.tmax());
         L off = 0;
         for (auto & p : st.r.pcs) {
           const L a = std::max(off, ta), b = std::min(off + p.T, tb);
-          if (b > a) n.pcs.push_back({p.atom, ref::mul(Lf, p.P), p.s0 + (a - off), b - a});
+          if (b - a > dl) n.pcs.push_back({p.atom, ref::mul(Lf, p.P), p.s0 + (a - off), b - a});
+          else if (b - a > -dl) n.fuzzy = true;
           off += p.T;
         }
       }
@@ -225,7 +233,8 @@ struct Machine
       for (size_t i = 0; i < ts.size(); ++i)
         for (size_t j = i + 1; j < ts.size(); ++j) {
           // only crops whose clamped interval is non-empty are within the statement's premise (ta < tb)
-          if (std::min(ts[j], tm) <= std::max(ts[i], 0.0)) continue;
+          // (and at least 1e-10 long: knot times are doubles of magnitude t_max, a shorter interval is below time resolution)
+          if (std::min(ts[j], tm) - std::max(ts[i], 0.0) < 1e-10) continue;
           if (ts[i] <= 0 && ts[j] >= tm && !(ts[i] == 0 && ts[j] == tm)) continue;  // same as identity crop: keep one
           ops.push_back({2, 0, ts[i], ts[j], true});
           ops.push_back({2, 0, ts[i], ts[j], false});
@@ -262,7 +271,8 @@ struct Machine
   {
     const L tm = st.r.tmax();
     c.judge("t_max", std::fabs((double)(tm - (L)st.s.t_max())) / std::max(1.0, (double)tm), 1e-12);
-    c.require("size() = number of pieces", st.s.size() == st.r.pcs.size());
+    if (!st.r.fuzzy) c.require("size() = number of pieces", st.s.size() == st.r.pcs.size());
+    c.outcome(st.r.fuzzy ? "crop boundary within rounding of a knot (size not compared)" : "generic");
     c.judge("start()", ref::relerr1(mat(st.s.start()), start_value(st.r)), TOLV);
     c.judge("end()", ref::relerr1(mat(st.s.end()), end_value(st.r)), TOLV);
     std::vector<double> ts = {-0.3, 0.0};
@@ -294,13 +304,19 @@ struct Machine
           sa = std::max(sa, std::fabs(e.acc[i]));
         }
         if (!(ev == ev)) continue;
+        // Knot times are stored as doubles of magnitude t_max, so the duration of a piece is only known to ulp(t_max): the time
+        // scaling Del/T of velocity (squared for acceleration) carries the relative uncertainty ulp(t_max)/duration. This
+        // conditioning term is subtracted before comparing with the tolerance (it only matters for the 1e-9-long pieces that
+        // crops at knot +- 1e-9 create).
+        const double cond = 4 * std::numeric_limits<double>::epsilon() * std::max(1.0, (double)tm) / (double)e.pieceT;
+        const double rd = std::max(0.0, (double)(ed / sd) - 2 * cond), ra = std::max(0.0, (double)(ea / sa) - 4 * cond);
         // choose the candidate jointly (the evaluation must be consistent with ONE piece)
-        const double tot = ev / TOLV + (double)(ed / sd) / TOLD + (double)(ea / sa) / TOLA;
+        const double tot = ev / TOLV + rd / TOLD + ra / TOLA;
         const double cur = bv / TOLV + bd / TOLD + ba / TOLA;
         if (!(tot >= cur)) {
           bv = ev;
-          bd = (double)(ed / sd);
-          ba = (double)(ea / sa);
+          bd = rd;
+          ba = ra;
         }
       }
       wv = std::max(wv, bv);
